@@ -102,12 +102,12 @@ var arImpl = map[string]core.Adapter{
 }
 
 type arMember struct {
-	Name    string
-	Slash   bool
+	Name         string
+	Slash        bool
 	TS, UID, GID string // column text ("" = blank)
-	Mode    string
-	Size    string // "" = derive from data
-	Data    []byte
+	Mode         string
+	Size         string // "" = derive from data
+	Data         []byte
 }
 
 func col(s string, n int) string {
